@@ -267,7 +267,13 @@ namespace chaiscript::bootstrap::standard_library {
       }
     }());
 
-    m.add(fun(&ContainerType::pop_back), "pop_back");
+    m.add(fun([](ContainerType &container) {
+            if (container.empty()) {
+              throw std::range_error("Container empty");
+            }
+            container.pop_back();
+          }),
+          "pop_back");
   }
 
   /// Front insertion sequence
@@ -275,7 +281,6 @@ namespace chaiscript::bootstrap::standard_library {
   template<typename ContainerType>
   void front_insertion_sequence_type(const std::string &type, Module &m) {
     using push_ptr = void (ContainerType::*)(typename ContainerType::const_reference);
-    using pop_ptr = void (ContainerType::*)();
 
     m.add(fun([](ContainerType &container) -> decltype(auto) {
             if (container.empty()) {
@@ -315,7 +320,13 @@ namespace chaiscript::bootstrap::standard_library {
       }
     }());
 
-    m.add(fun(static_cast<pop_ptr>(&ContainerType::pop_front)), "pop_front");
+    m.add(fun([](ContainerType &container) {
+            if (container.empty()) {
+              throw std::range_error("Container empty");
+            }
+            container.pop_front();
+          }),
+          "pop_front");
   }
 
   /// bootstrap a given PairType
